@@ -1055,4 +1055,16 @@ impl LiveActor {
     pub async fn verif_shutdown(&mut self) -> anyhow::Result<()> {
         self.shutdown().await
     }
+    /// H7: feed a replica event to the private handler that decides about downloads.
+    pub async fn verif_on_replica_event(&mut self, event: crate::Event) -> anyhow::Result<()> {
+        self.on_replica_event(event).await
+    }
+    /// H7: a neighbor announced that it has the content for `hash`.
+    pub async fn verif_on_neighbor_content_ready(&mut self, namespace: NamespaceId, node: PublicKey, hash: Hash) {
+        self.on_neighbor_content_ready(namespace, node, hash).await
+    }
+    /// H7: (a download of `hash` is queued or running, `hash` is remembered as missing).
+    pub fn verif_download_state(&self, hash: &Hash) -> (bool, bool) {
+        (self.queued_hashes.contains_hash(hash), self.missing_hashes.contains(hash))
+    }
 }
